@@ -329,7 +329,7 @@ func ruleC09StateOnce(p *Prog, a *Anchors, r *Report) {
 		for _, b := range f.Blocks {
 			for _, in := range b.Instrs {
 				c, ok := in.(*ssa.Call)
-				if !ok || c.Common().StaticCallee() == nil || c.Common().StaticCallee().Name() != "setNodeState" || !p.InPkg(c.Common().StaticCallee()) {
+				if !ok || c.Common().StaticCallee() == nil || !c11WritesNodeState(c.Common().StaticCallee()) || !p.InPkg(c.Common().StaticCallee()) {
 					continue
 				}
 				args := c.Common().Args
@@ -346,7 +346,7 @@ func ruleC09StateOnce(p *Prog, a *Anchors, r *Report) {
 					// `state, ok := ctx.getNodeState(node).(*T)`: not ok means nothing (of that type) is stored
 					if ex, isEx := cond.(*ssa.Extract); isEx && ex.Index == 1 && !pol {
 						if ta, isTA := ex.Tuple.(*ssa.TypeAssert); isTA && ta.CommaOk {
-							if c, isC := ta.X.(*ssa.Call); isC && c.Common().StaticCallee() != nil && c.Common().StaticCallee().Name() == "getNodeState" {
+							if c, isC := ta.X.(*ssa.Call); isC && c.Common().StaticCallee() != nil && c11ReadsNodeState(c.Common().StaticCallee()) {
 								return true
 							}
 						}
@@ -363,7 +363,7 @@ func ruleC09StateOnce(p *Prog, a *Anchors, r *Report) {
 						case *ssa.TypeAssert:
 							x = t.X
 						case *ssa.Call:
-							return t.Common().StaticCallee() != nil && t.Common().StaticCallee().Name() == "getNodeState"
+							return t.Common().StaticCallee() != nil && c11ReadsNodeState(t.Common().StaticCallee())
 						default:
 							return false
 						}
@@ -511,5 +511,70 @@ func ruleC09MapReversed(p *Prog, a *Anchors, r *Report) {
 	}
 	if n == 0 {
 		r.Unk("map-arm", p.Pos(it.Pos()), "no sort of map keys found in the iteration")
+	}
+}
+
+// R-C09-IF `else:last`. The if node pairs its i-th body with its i-th condition and takes one body more than there
+// are conditions as the else-part — which is right only if `else` is the last part. The parser's loop accepts elif,
+// else and endif in every pass, so it has to remember that it has seen `else` and refuse anything but endif after it:
+// some boolean that the loop carries from one pass to the next (set from the end tag's name) guards an error return.
+// Without it {% if a %}A{% else %}E{% elif b %}B{% endif %} compiles and renders the else-part for b, and B for
+// neither.
+func ruleC09IfElseLast(p *Prog, a *Anchors, r *Report) {
+	f := a.TagParsers["if"]
+	if f == nil {
+		r.Unk("else:last", "-", "anchor unresolved: the parser registered as \"if\"")
+		return
+	}
+	var wrapCall ssa.Instruction
+	for _, b := range f.Blocks {
+		for _, in := range b.Instrs {
+			if c, ok := in.(*ssa.Call); ok && c.Common().StaticCallee() != nil && c.Common().StaticCallee().Name() == "WrapUntilTag" && innermostLoopHeader(b) != nil {
+				wrapCall = in
+			}
+		}
+	}
+	if wrapCall == nil {
+		r.Unk("else:last", p.Pos(f.Pos()), "no WrapUntilTag call inside a loop of the if-parser")
+		return
+	}
+	hdr := innermostLoopHeader(wrapCall.Block())
+	// loop-carried booleans: bool phis in the loop header (or cells stored inside the loop) …
+	isCarried := func(v ssa.Value) bool {
+		if u, isU := v.(*ssa.UnOp); isU && u.Op == token.MUL {
+			if _, isAlloc := u.X.(*ssa.Alloc); isAlloc {
+				for _, sv := range refs(u.X) {
+					if st, isSt := sv.(*ssa.Store); isSt && hdr.Dominates(st.Block()) {
+						return true
+					}
+				}
+			}
+		}
+		if phi, isPhi := v.(*ssa.Phi); isPhi && phi.Block() == hdr {
+			if bt, isB := phi.Type().Underlying().(*types.Basic); isB && bt.Info()&types.IsBoolean != 0 {
+				return true
+			}
+		}
+		return false
+	}
+	guarded := false
+	for _, b := range f.Blocks {
+		if !hdr.Dominates(b) || !errorReturnsOnly(f, b) || len(b.Instrs) == 0 {
+			continue
+		}
+		if Guarded(b.Instrs[0], func(c ssa.Value, pol bool) bool { return isCarried(c) }) {
+			guarded = true
+		}
+	}
+	// … or the names handed to WrapUntilTag differ from pass to pass
+	if c := wrapCall.(*ssa.Call); len(c.Common().Args) > 1 {
+		if _, isPhi := c.Common().Args[1].(*ssa.Phi); isPhi {
+			guarded = true
+		}
+	}
+	if guarded {
+		r.OK("else:last", p.InstrPos(wrapCall), "the loop remembers across passes that `else` was seen and refuses (or no longer accepts) elif/else after it")
+	} else {
+		r.Bad("else:last", p.InstrPos(wrapCall), "the if-parser accepts elif, else and endif in every pass of its loop and carries nothing from pass to pass that says `else` was seen: {%% if a %%}A{%% else %%}E{%% elif b %%}B{%% endif %%} compiles, and since the node takes a body without condition as the else-part only at the end, it renders E when b is the first true condition and B when none is")
 	}
 }
